@@ -44,6 +44,10 @@ UNITS = [
     Unit('conv_reshape_bias.bp', 'c17', 'verif_conv_reshape_bias', mode='bp', unwind=12, clause='conv: bias viewed as (Co, 1, 1)'),
     Unit('conv_kernel_size.bp', 'c17', 'verif_conv_kernel_size', mode='bp', unwind=12, unwind_loops={'conv_kernel_size': 3}, clause='conv: window extents (kw, kh) for the window axes (-1, -2)'),
     Unit('conv_expand_spacing.bp', 'c17', 'verif_conv_expand_spacing', mode='bp', unwind=12, unwind_loops={'conv_expand_spacing': 3}, clause='conv: dilation index helper -- spacing per window axis'),
+    Unit('conv_slices.bp', 'c17', 'verif_conv_slices', mode='bp', unwind=12, clause='conv: per-axis stride (sh, sw) becomes the slice steps on (H, W) in that order'),
+    Unit('max_reducer.bounded', 'c17', 'verif_max_reducer', mode='bp', plain=True, unwind=8, unwind_loops={'.': 8}, object_bits=12, timeout=1500,
+         bounded='one 2x2 int window; all loops unwound 8 times', waive=[r'arithmetic overflow on (signed to unsigned|unsigned to signed) type conversion'],
+         clause='max pooling: the reducer applied to a window returns the maximum of its elements'),
     Unit('conv_pad.bp', 'c17', 'verif_conv_pad', mode='bp', unwind=12, unwind_loops={'conv_pad': 3}, clause='conv: zero padding widths on the two spatial axes only'),
 ]
 LEMMAS = [
